@@ -34,3 +34,47 @@ ERROR:
         }
         return FAIL;
 }
+
+/* R16g: an owning local overwritten while it still holds its object */
+struct cand { float score; };
+struct cand *next_cand(int i);
+float bad_r16g_best_overwritten(int n)
+{
+        struct cand *best = NULL, *c = NULL;
+        float s;
+        int i;
+        for (i = 0; i < n; i++) {
+                c = next_cand(i);
+                if (!best) {
+                        best = c;
+                } else if (best->score > c->score) {
+                        best = c;                       /* the previous best is lost */
+                } else {
+                        free(c);
+                }
+        }
+        s = best->score;
+        free(best);
+        return s;
+}
+float ok_r16g_best_swapped(int n)
+{
+        struct cand *best = NULL, *c = NULL, *tmp = NULL;
+        float s;
+        int i;
+        for (i = 0; i < n; i++) {
+                c = next_cand(i);
+                if (!best) {
+                        best = c;
+                } else if (best->score > c->score) {
+                        tmp = best;
+                        best = c;
+                        free(tmp);
+                } else {
+                        free(c);
+                }
+        }
+        s = best->score;
+        free(best);
+        return s;
+}
